@@ -10,12 +10,15 @@ and the connected datagram sockets of socket_api/socket.rs they use).
   `Model/Codec/Dns.lean`; this file carries the part C20 needs.)
 * Server (`dns_server.rs`): one responder task per accepted connection: read the request, parse,
   `query_name` (UTF-8), table lookup, `create_response` (id, question name, answer name and ttl
-  are copied from the request, rdata = the record), send.  Every failure is an `unwrap` in a
-  spawned task: under `run_internet` the panic hook exits the process (`.error "panic:…"`).
+  are copied from the request, rdata = the record), send.  Every failure (`DnsServerError::Other`
+  for an undecodable request, `Cache` for an unknown name) is returned by `respond_to_query`,
+  logged by the responder task, and NO reply is sent (`.error "err:…"`).
 * Client (`dns_client.rs`): `get_host_by_name`: cache hit -> address, nothing else happens;
   miss -> query with a random id on a FRESH connected datagram socket (ephemeral port), wait for
-  one datagram, parse, insert (answer.name -> rdata[0..4]) into the cache, look the requested name
-  up (an `unwrap`).  The client compares neither the id nor the names of the reply.
+  one datagram (no timeout), parse, insert (answer.name -> rdata[0..4]) into the cache, look the
+  requested name up.  An undecodable reply gives `Err(Other)`, a reply whose answer is for another
+  name gives `Err(Cache)` AFTER that answer was cached.  The client compares neither the id nor
+  the question name of the reply.
 * Exchange: one server, N clients, a bag of datagrams in flight; the scheduler/network choice
   (which client starts which lookup, which datagram arrives next) is an explicit `Choice` list.
 
@@ -270,17 +273,17 @@ def createResponse (q : DnsMsg) (a : Addr) : DnsMsg :=
     question := Question.new q.question.qname,
     answer := Record.new q.answer.name q.answer.ttl a }
 
-/-- `DnsServer::respond_to_query` on one request datagram: the reply datagram, or the panic that
-    ends the process -/
+/-- `DnsServer::respond_to_query` on one request datagram: the reply datagram, or the error the
+    responder task logs (then nothing is sent) -/
 def respondWith (budget : Option Nat) (t : Table) (datagram : Bytes) : Except String Bytes :=
   match fromBytes (serverRead budget datagram) with
-  | none => .error "panic:unwrap:server_from_bytes"
+  | none => .error "err:Other:server_from_bytes"
   | some req =>
     if utf8Valid req.question.qname then
       match t.get req.question.qname with
-      | none => .error "panic:unwrap:server_respond_to_query"
+      | none => .error "err:Cache:server_unknown_name"
       | some a => .ok (createResponse req a).build
-    else .error "panic:unwrap:server_query_name"
+    else .error "err:Other:server_query_name"
 
 /-- the server as the source has it now (`Generated/DnsCert.lean` is rewritten from the source
     on every check) -/
@@ -306,20 +309,21 @@ def addrOfRdata : Bytes → Option Addr
   | _ => none
 
 /-- the tail of `get_host_by_name` after `recv_msg`: parse the reply, cache (answer.name ->
-    rdata), look the requested name up.  Result: new cache, the parsed reply, the address. -/
-def onReply (cache : Table) (name reply : Bytes) : Except String (Table × DnsMsg × Addr) :=
+    rdata), look the requested name up.  Result: the cache afterwards and what the call returns
+    (the parsed reply and the address, or `DnsClientError`). -/
+def onReply (cache : Table) (name reply : Bytes) : Table × Except String (DnsMsg × Addr) :=
   match fromBytes reply with
-  | none => .error "panic:unwrap:client_from_bytes"
+  | none => (cache, .error "err:Other")
   | some m =>
     if utf8Valid m.answer.name then
       match addrOfRdata m.answer.rdata with
-      | none => .error "panic:index:client_rdata"
+      | none => (cache, .error "err:Other")
       | some a =>
         let cache' := cache.put m.answer.name a
         match cache'.get name with
-        | none => .error "panic:unwrap:client_get_mapping"
-        | some r => .ok (cache', m, r)
-    else .error "panic:unwrap:client_from_utf8"
+        | none => (cache', .error "err:Cache")
+        | some r => (cache', .ok (m, r))
+    else (cache, .error "err:Other")
 
 /-! ### the exchange as a transition system -/
 
@@ -357,6 +361,10 @@ inductive Event
   | sent (d : Datagram)
   /-- client `c` consumed reply `reply` on the socket it opened for (`name`, `id`) -/
   | accepted (c : Nat) (name : Bytes) (id : Nat) (reply : DnsMsg)
+  /-- `get_host_by_name(name)` of client `c` returned `Err(e)` -/
+  | failed (c : Nat) (name : Bytes) (e : String)
+  /-- the responder for the connection of `src` logged error `e` and sent nothing -/
+  | unanswered (src : Ep) (e : String)
 deriving Repr, DecidableEq
 
 structure Sys where
@@ -365,7 +373,7 @@ structure Sys where
   socks : List Sock
   net : List Datagram
   events : List Event
-  /-- a panic ended the process -/
+  /-- a panic ended the process (only the ephemeral-port overflow is left, F-C20-4) -/
   crashed : Option String
 deriving Repr
 
@@ -410,7 +418,7 @@ def stepDeliver (s : Sys) (k : Nat) : Sys :=
     match d.dst with
     | .server =>
       match respond s.table d.payload with
-      | .error e => { s with net := net', crashed := some e }
+      | .error e => { s with net := net', events := s.events ++ [.unanswered d.src e] }
       | .ok r =>
         let d' : Datagram := { src := .server, dst := d.src, payload := r }
         { s with net := net' ++ [d'], events := s.events ++ [.sent d'] }
@@ -420,8 +428,12 @@ def stepDeliver (s : Sys) (k : Nat) : Sys :=
         if so.done then { s with net := net' }   -- nobody reads a second datagram on that socket
         else
           match onReply cl.cache so.name d.payload with
-          | .error e => { s with net := net', crashed := some e }
-          | .ok (cache', m, a) =>
+          | (cache', .error e) =>
+            { s with net := net',
+                     clients := s.clients.set c { cl with cache := cache' },
+                     socks := markDone s.socks c p,
+                     events := s.events ++ [.failed c so.name e] }
+          | (cache', .ok (m, a)) =>
             { s with net := net',
                      clients := s.clients.set c { cl with cache := cache' },
                      socks := markDone s.socks c p,
